@@ -101,6 +101,21 @@ def run(ctx):
                                       for flt in f.get("filters", "").split("|") if ":" in flt
                                       for e in flt.split(",")][:8]
                 replay["reported"] = [_unhex(x) for x in f.get("dirs", "").split(",")][:20]
+            if j.startswith("G "):
+                f = dict(x.split("=", 1) for x in j.split(" ")[1:] if "=" in x)
+                names = [_unhex(x) for x in f.get("names", "").split(",")]
+                vals = [_unhex(x) for x in f.get("values", "").split(",")]
+                replay["command_line"] = ["gateway", "static-mode"] + [_unhex(x) for x in f.get("args", "-").split(",") if x != "-"]
+                bad = []
+                for fl, v in zip(f.get("flags", "").split(","), vals):
+                    p_ = fl.split(":")
+                    if p_[1] == "o" and v not in ("default", "user-defined"):
+                        bad.append({"flag": _unhex(p_[0]), "type": _unhex(p_[4]), "Value.String()": _unhex(p_[2]),
+                                    "DefValue": _unhex(p_[3]), "reported_FlagValue": v})
+                    if p_[1] == "b" and v not in ("true", "false"):
+                        bad.append({"flag": _unhex(p_[0]), "type": "bool", "reported_FlagValue": v})
+                replay["misreported_flags"] = bad
+                replay["reported"] = dict(zip(names, vals))
             ctx.finding(f"C19:{s}", f"SnippetsFilter telemetry: {what}" if s.split(":")[0] in ("leak", "miscount", "report")
                         else f"telemetry: {what}", replay)
 
